@@ -57,7 +57,7 @@ func genC13(w *World, res *CheckResult) {
 		res.Functions = append(res.Functions, shortName(f))
 	}
 	// (b) checker.error, (c) compiler.emit, lexer stamps (shared with C12), Patch keeps the location (shared with C10)
-	for _, n := range []string{"checker.visitor.error", "compiler.compiler.emit", "lexer.lexer.emitValue", "lexer.lexer.next", "lexer.lexer.backup", "lexer.lexer.acceptWord", "parser.parser.error", "file.Source.updateOffsets"} {
+	for _, n := range []string{"checker.visitor.error", "compiler.compiler.emit", "lexer.lexer.emitValue", "lexer.lexer.next", "lexer.lexer.backup", "lexer.lexer.acceptWord", "parser.parser.error", "file.Source.updateOffsets", "compiler.compiler.compile"} {
 		fn, ct := w.Func(n), w.Contracts[n]
 		if fn == nil || ct == nil {
 			res.Obls = append(res.Obls, missingObl(n+"/exists", "function or contract missing"))
